@@ -44,7 +44,7 @@ func randScenario(rng *rand.Rand, canary string, hostile bool) *cbScenario {
 		}
 		return s
 	}
-	sc.U = randUser(rng, "U"+canary, hostile)
+	sc.U = randUser(rng, "U_"+canary, hostile)
 	sc.Audience = "https://" + strings.ToLower(canary) + ".sp.example/metadata"
 	if hostile && rng.Intn(2) == 0 {
 		sc.Audience += legalXMLString(rng, 3)
